@@ -71,6 +71,11 @@ class Check(PropertyCheck):
         for i, (f, t) in enumerate(files):
             g = declib.GRANULES[i % len(declib.GRANULES)]
             jobs.append((["-d", "-n%d" % rng.choice([1, 2, 4, 8])], f, g, "decompress:" + t))
+        # groups of 20-bit codes against many input block sizes (the >= 32 words fast path of retrieve() near a block end)
+        for _ in range(2 if quick else 6):
+            f, plain = declib.bzcraft.dense20_file(rng, 30000 if quick else 80000)
+            for gran in (520, 1000, 1024, 1500, 2048, 3000, 4096, 8192, 12000):
+                jobs.append((["-d", "-n%d" % rng.choice([1, 3])], f, (str(gran), "900000"), "decompress:dense20"))
 
         def work(j):
             args, data, g, tag = j
@@ -92,7 +97,7 @@ class Check(PropertyCheck):
             line = [l for l in err.splitlines() if "ERROR" in l or "runtime error" in l or "SUMMARY" in l][:2]
             out.append(Violation("sanitizer:" + (line[0].split(":")[-1].strip()[:40] if line else str(rc)),
                                  "ASan/UBSan build, %s %s, granules %s: exit %s %s" % (tag, " ".join(args), g, rc, " | ".join(line)[:300]),
-                                 {"args": args, "granules": g, "input_hex": data.hex()[:20000], "input_len": len(data), "stderr": err[-3000:],
+                                 {"args": args, "granules": g, "input_hex": data.hex()[:600000], "input_len": len(data), "stderr": err[-3000:],
                                   "how": "build with -fsanitize=address,undefined (vlib.build_lbzip2('asan')) and feed the input on stdin"}))
         return out
 
